@@ -1,3 +1,4 @@
+import Pocket.Lemmas.FromSourceConsts
 import Pocket.Thm.C05
 /-
 C17 — every access path agrees and index accounting never leaks.
@@ -52,5 +53,10 @@ theorem self_findable (ops : List Op) (x : SEv) (hx : x ∈ (run {} ops).db.live
     (hnl : (run {} ops).db.live.length < f.limit) (allow : Bool) (l secs now : Nat) (out : List SEv) (red : Bool)
     (h : findEvents (run {} ops).db.live f allow l secs now (fun _ => .match) = .ok out red) : x ∈ out :=
   (C05.findEvents_exact ops f hsl allow l secs now _ out red hnl h x).mpr ⟨hx, hm, rfl⟩
+
+/-! ### tie to the source text: what /repo says now (translated on every run by `lib/srcfacts.py`) is what the model says -/
+
+/-- every `PADLEN` of the key builders in `lmdb/mod.rs` is the length the model pads (or cuts) tag values to -/
+theorem index_padding_from_source (v : Bytes) : ∀ p ∈ Src.c_lmdb_PADLEN, (pad182 v).length = p := Pocket.index_padding_from_source v
 
 end Pocket.C17
